@@ -1278,3 +1278,88 @@ Proof.
   intros Hl Hg. rewrite restart_lookup_lease by exact Hl.
   rewrite (load_lease_stuck _ l (e_find_fresh_none _ Hg)). reflexivity.
 Qed.
+
+(* ================================================================================ *)
+(* Ids inside JSON: the round trips under the guard "every id held is valid UTF-8"    *)
+
+Lemma coerce_keys_valid {V} names ord (m : amap V) :
+  ids_valid names (map fst m) = true -> coerce_keys names ord m = m.
+Proof. unfold coerce_keys. intros ->. reflexivity. Qed.
+
+Lemma b_roundtrip_valid names ord s :
+  ids_valid names (map fst (b_alloc s)) = true -> b_roundtrip names ord s = b_unmarshal (b_marshal s).
+Proof.
+  intros H. unfold b_roundtrip. cbn [b_marshal jb_base jb_ppl jb_pl jb_v6 jb_bitmap jb_alloc].
+  rewrite coerce_keys_valid by exact H. reflexivity.
+Qed.
+
+Lemma marshal_roundtrip_bitmap_ids_partial names ord g ops q : fam_ok g ->
+  ids_valid names (map fst (b_alloc (brun g ops))) = true ->
+  b_query (b_roundtrip names ord (brun g ops)) q = b_query (brun g ops) q.
+Proof.
+  intros Hf Hv. rewrite b_roundtrip_valid by exact Hv.
+  apply marshal_roundtrip_bitmap; [rewrite brun_geo; exact Hf|apply brun_inv].
+Qed.
+
+Lemma e_roundtrip_valid names ord s :
+  ids_valid names (map fst (e_sub s)) = true -> e_roundtrip names ord s = e_unmarshal (e_marshal s).
+Proof.
+  intros H. unfold e_roundtrip.
+  cbn [e_marshal je_base je_netlen je_pl je_epoch je_grace je_gens je_sub je_rev].
+  rewrite coerce_keys_valid by exact H. rewrite H. reflexivity.
+Qed.
+
+Lemma marshal_roundtrip_epoch_ids_partial names ord base ones pl grace ops :
+  ones <= pl -> pl <= 32 -> base mod 2 ^ (32 - ones) = 0 ->
+  ids_valid names (map fst (e_sub (e_run base ones pl grace ops))) = true ->
+  exists s', e_roundtrip names ord (e_run base ones pl grace ops) = Some s' /\
+             forall q, e_query s' q = e_query (e_run base ones pl grace ops) q.
+Proof.
+  intros H1 H2 H3 Hv. rewrite e_roundtrip_valid by exact Hv.
+  apply marshal_roundtrip_epoch. apply e_run_EG; assumption.
+Qed.
+
+Lemma marshal_roundtrip_store_ids_partial names ops q :
+  ids_valid names (map sr_sub (ms_recs (m_run ops))) = true ->
+  m_query (m_roundtrip_ids names (m_run ops)) q = m_query (m_run ops) q.
+Proof. intros Hv. unfold m_roundtrip_ids. rewrite Hv. apply marshal_roundtrip_store. Qed.
+
+(* refutations: the id "\xff" (holder 0); encoding/json turns it into U+FFFD = EF BF BD (holder 1) *)
+Definition ff_names : list (N * bytes) := [(0, [255]); (1, [239; 191; 189])].
+Definition ff_geo : geo := {| g_bits := 32; g_base := 167772160; g_ppl := 30; g_pl := 32 |}.
+
+Lemma marshal_roundtrip_bitmap_ids_refuted :
+  exists names ord g ops q, fam_ok g /\ b_query (b_roundtrip names ord (brun g ops)) q <> b_query (brun g ops) q.
+Proof.
+  exists ff_names, [1; 0], ff_geo, [Alloc 0], (QLookup 0). split; [left; reflexivity|]. vm_compute. discriminate.
+Qed.
+
+Lemma marshal_roundtrip_epoch_ids_refuted :
+  exists names ord base ones pl grace ops q s', 
+    e_roundtrip names ord (e_run base ones pl grace ops) = Some s' /\ e_query s' q <> e_query (e_run base ones pl grace ops) q.
+Proof.
+  exists ff_names, [1; 0], 167772160, 29, 32, 1, [Alloc 0], (QELookup 0).
+  eexists. split; [vm_compute; reflexivity|]. vm_compute. discriminate.
+Qed.
+
+Lemma marshal_roundtrip_store_ids_refuted :
+  exists names ops q, m_query (m_roundtrip_ids names (m_run ops)) q <> m_query (m_run ops) q.
+Proof.
+  exists ff_names, [MSave {| sr_pool := 0; sr_sub := 0; sr_addr := 167772161; sr_pl := 32; sr_bits := 32; sr_type := 1; sr_mac := 0; sr_iaid := 0 |}],
+         (QMBySub 0).
+  vm_compute. discriminate.
+Qed.
+
+(* an id without bytes >= 128 is never changed *)
+Lemma coerce_fuel_ascii l : forall n, (length l <= n)%nat -> forallb (fun b => b <? 128) l = true -> coerce_fuel n l = l.
+Proof.
+  induction l as [|b tl IH]; intros n Hn Ha; destruct n as [|n]; cbn [coerce_fuel]; try reflexivity.
+  - cbn in Hn. lia.
+  - cbn [forallb] in Ha. apply andb_true_iff in Ha as [Hb Ht]. unfold utf8_len. rewrite Hb.
+    cbn [firstn skipn app]. f_equal. apply IH; [cbn in Hn; lia|exact Ht].
+Qed.
+
+Lemma ascii_utf8_valid l : forallb (fun b => b <? 128) l = true -> utf8_valid l = true.
+Proof.
+  intros H. unfold utf8_valid, json_coerce. rewrite coerce_fuel_ascii by (auto; exact H). apply bytes_eqb_eq. reflexivity.
+Qed.
